@@ -444,9 +444,20 @@ func (p *hvPPS) writeOctants(w *hw, depth uint64) {
 		for j := 0; j < 4; j++ {
 			w.f(p.mCodedRes && j == 0 && i == 0)
 			if p.mCodedRes && j == 0 && i == 0 {
+				// res_coeff_r has Max(0, 10 + BitDepthCmInputY - BitDepthCmOutputY - cm_res_quant_bits - (cm_delta_flc_bits_minus1 + 1)) bits
+				lsb := 10 + int64(p.mBdInL) - int64(p.mBdOutL) - int64(p.mResQuant) - int64(p.mFlc+1)
+				if lsb < 0 {
+					lsb = 0
+				}
+				if lsb > 64 {
+					lsb = 64
+				}
 				for c := 0; c < 3; c++ {
 					w.ue(uint64(c))
-					w.u(1, 4) // res_coeff_r (whatever width the parser derives) and the sign
+					w.uw(1, int(lsb))
+					if c != 0 || lsb > 0 {
+						w.f(true) // res_coeff_s
+					}
 				}
 			}
 		}
@@ -609,12 +620,20 @@ func (p *hvPPS) encode() []byte {
 						if p.dNumVal > 1 {
 							w.u(p.dMaxDiff, nb)
 						}
-						if p.dNumVal > 2 && p.dMaxDiff > 0 {
-							w.u(0, ceilLog2u(p.dMaxDiff+1))
+						maxDiff := uint64(0)
+						if p.dNumVal > 1 {
+							maxDiff = p.dMaxDiff
+						}
+						minDiff := int64(maxDiff) // min_diff_minus1 + 1
+						if p.dNumVal > 2 && maxDiff > 0 {
+							w.u(0, ceilLog2u(maxDiff+1))
+							minDiff = 1
 						}
 						w.u(1, nb)
-						for k := 0; k < 6; k++ {
-							w.u(uint64(k), 3)
+						if int64(maxDiff) > minDiff {
+							for k := uint64(1); k < p.dNumVal && k < 12; k++ {
+								w.u(k&1, ceilLog2u(uint64(int64(maxDiff)-minDiff+1)))
+							}
 						}
 					}
 				}
